@@ -257,6 +257,209 @@ func (p *pipeline) flushSome(sel []int) (string, bool) {
 	return p.label(v, k, uniq), true
 }
 
+// ---- free-running mode: P parser goroutines, buffered worker queues, a concurrently ticking flusher.
+
+type countingHandler struct {
+	*statsd.BackendHandler
+	n        int
+	mu       sync.Mutex
+	pieces   int // non-empty pieces handed to the workers so far
+	returned int // DispatchMetricMap calls that have returned
+}
+
+func (c *countingHandler) DispatchMetricMap(ctx context.Context, mm *gostatsd.MetricMap) {
+	np := 0
+	// Split is pure: count the non-empty pieces of a copy-free second split
+	for _, p := range mm.Split(c.n) {
+		if !p.IsEmpty() {
+			np++
+		}
+	}
+	c.BackendHandler.DispatchMetricMap(ctx, mm)
+	c.mu.Lock()
+	c.pieces += np
+	c.returned++
+	c.mu.Unlock()
+}
+
+type countingAggr struct {
+	statsd.Aggregator
+	received *int64mu
+}
+
+type int64mu struct {
+	mu sync.Mutex
+	v  int
+}
+
+func (a countingAggr) ReceiveMap(mm *gostatsd.MetricMap) {
+	a.Aggregator.ReceiveMap(mm)
+	a.received.mu.Lock()
+	a.received.v++
+	a.received.mu.Unlock()
+}
+
+type viewRec struct {
+	round int
+	mm    string
+}
+
+func runFree(n int, expireAll bool, parsers, qsize int, items [][]string) string {
+	exp := time.Duration(0)
+	if expireAll {
+		exp = -1 * time.Nanosecond
+	}
+	recvd := &int64mu{}
+	factory := statsd.AggregatorFactoryFunc(func() statsd.Aggregator {
+		return countingAggr{statsd.NewMetricAggregator(nil, exp, exp, exp, exp, gostatsd.TimerSubtypes{}, 0), recvd}
+	})
+	cap := &capture{}
+	backends := []gostatsd.Backend{cap}
+	bh := statsd.NewBackendHandler(backends, 10, n, qsize, factory)
+	ch := &countingHandler{BackendHandler: bh, n: n}
+	ctx0, cancel := context.WithCancel(context.Background())
+	defer cancel()
+	mock := clock.NewMock(time.Unix(1000000, 0))
+	ctx := clock.Context(ctx0, mock)
+	go bh.Run(ctx)
+	in := make(chan []*statsd.Datagram)
+	logger := logrus.New()
+	logger.SetOutput(io.Discard)
+	for i := 0; i < parsers; i++ {
+		go statsd.NewDatagramParser(in, "", false, 0, ch, 0, false, logger).Run(ctx)
+	}
+	fl := statsd.NewMetricFlusher(interval, 0, false, bh, backends)
+	go fl.Run(ctx)
+	if !waitFor(func() bool { return mock.Len() >= 1 }, 10*time.Second) {
+		return "HANG ticker"
+	}
+	// feeder and ticker run concurrently
+	batches := 0
+	var feed sync.WaitGroup
+	feed.Add(1)
+	go func() {
+		defer feed.Done()
+		for _, it := range items {
+			if len(it) > 0 && it[0] == "a" {
+				dps := mmc.ParseDps(it[1:])
+				lines := make([]string, len(dps))
+				for i, m := range dps {
+					lines[i] = line(m)
+				}
+				in <- []*statsd.Datagram{{IP: dps[0].Source, Msg: []byte(strings.Join(lines, "\n")), Timestamp: dps[0].Timestamp, DoneFunc: func() {}}}
+			}
+		}
+	}()
+	for _, it := range items {
+		if len(it) > 0 && it[0] == "a" {
+			batches++
+		}
+	}
+	stopTick := make(chan struct{})
+	var tick sync.WaitGroup
+	tick.Add(1)
+	go func() {
+		defer tick.Done()
+		for {
+			select {
+			case <-stopTick:
+				return
+			default:
+				mock.Add(interval)
+				time.Sleep(20 * time.Microsecond)
+			}
+		}
+	}()
+	feed.Wait()
+	ok := waitFor(func() bool {
+		ch.mu.Lock()
+		defer ch.mu.Unlock()
+		return ch.returned == batches
+	}, 20*time.Second)
+	if !ok {
+		close(stopTick)
+		return "HANG dispatch"
+	}
+	ok = waitFor(func() bool {
+		ch.mu.Lock()
+		want := ch.pieces
+		ch.mu.Unlock()
+		recvd.mu.Lock()
+		defer recvd.mu.Unlock()
+		return recvd.v == want
+	}, 20*time.Second)
+	close(stopTick)
+	tick.Wait()
+	if !ok {
+		return "HANG deliver"
+	}
+	// Final flush of every shard through the workers' own command channel (the flusher's sequence
+	// Flush / Process / Reset). Everything has been merged by now, so whatever the concurrently
+	// running flusher still does before or after on a worker only reports what is left or nothing.
+	bh.Process(ctx, func(id int, aggr statsd.Aggregator) {
+		aggr.Flush(interval)
+		aggr.Process(func(m *gostatsd.MetricMap) { cap.SendMetricsAsync(ctx, m, func([]error) {}) })
+		aggr.Reset()
+	})()
+	views, _ := cap.take()
+	return totals(views, n)
+}
+
+// totals sums what the views report per series (the free-running mode's canonical output).
+func totals(views []string, n int) string {
+	csum := map[string]int64{}
+	tvals := map[string][]string{}
+	tsamp := map[string]float64{}
+	smem := map[string]map[string]bool{}
+	for _, v := range views {
+		if v == "-" {
+			continue
+		}
+		mm := mmc.ParseMap(hx.Tokens(v))
+		mm.Counters.Each(func(nm, tk string, c gostatsd.Counter) { csum[hx.S(nm)+" "+hx.S(tk)] += c.Value })
+		mm.Timers.Each(func(nm, tk string, t gostatsd.Timer) {
+			k := hx.S(nm) + " " + hx.S(tk)
+			for _, x := range t.Values {
+				tvals[k] = append(tvals[k], hx.F(x))
+			}
+			tsamp[k] += t.SampledCount
+			if _, ok := tvals[k]; !ok {
+				tvals[k] = nil
+			}
+		})
+		mm.Sets.Each(func(nm, tk string, s gostatsd.Set) {
+			k := hx.S(nm) + " " + hx.S(tk)
+			if smem[k] == nil {
+				smem[k] = map[string]bool{}
+			}
+			for m := range s.Values {
+				smem[k][hx.S(m)] = true
+			}
+		})
+	}
+	out := []string{}
+	for k, v := range csum {
+		out = append(out, fmt.Sprintf("c %s %d", k, v))
+	}
+	for k, v := range tvals {
+		sort.Strings(v)
+		out = append(out, fmt.Sprintf("t %s %d %s %s", k, len(v), strings.Join(v, " "), hx.F(tsamp[k])))
+	}
+	for k, v := range smem {
+		ms := []string{}
+		for m := range v {
+			ms = append(ms, m)
+		}
+		sort.Strings(ms)
+		out = append(out, fmt.Sprintf("s %s %d %s", k, len(ms), strings.Join(ms, " ")))
+	}
+	sort.Strings(out)
+	if len(out) == 0 {
+		return "TOTALS -"
+	}
+	return "TOTALS " + strings.Join(out, " , ")
+}
+
 func runOne(caseLine string) (out string) {
 	defer func() {
 		if e := recover(); e != nil {
@@ -270,6 +473,14 @@ func runOne(caseLine string) (out string) {
 	n, _ := strconv.Atoi(parts[0][0])
 	if n < 1 {
 		return "BAD_CASE"
+	}
+	if len(parts) > 1 && len(parts[1]) == 3 && parts[1][0] == "r" {
+		P, _ := strconv.Atoi(parts[1][1])
+		Q, _ := strconv.Atoi(parts[1][2])
+		if P < 1 || Q < 0 {
+			return "BAD_CASE"
+		}
+		return runFree(n, parts[0][1] == "x", P, Q, parts[2:])
 	}
 	p := newPipeline(n, parts[0][1] == "x")
 	defer p.cancel()
@@ -395,6 +606,17 @@ func gen(args []string) {
 			}
 		}
 		items = append(items, "f *")
+		free := r.Chance(1, 5)
+		if free {
+			// free-running: only the batches matter; P parsers, queue size Q
+			fi := []string{fmt.Sprintf("r %d %d", r.Range(1, 4), hx.Pick(r, []int{0, 1, 1000}))}
+			for _, it := range items {
+				if strings.HasPrefix(it, "a ") {
+					fi = append(fi, it)
+				}
+			}
+			items = fi
+		}
 		head := []string{strconv.Itoa(shards), mode}
 		ok := make([]string, 0, len(oracle))
 		for k := range oracle {
@@ -408,6 +630,11 @@ func gen(args []string) {
 		st.Case(line, nontrivial)
 		st.Hit("shards=" + strconv.Itoa(shards))
 		st.Hit("mode=" + mode)
+		if free {
+			st.Hit("free-running")
+		} else {
+			st.Hit("scripted")
+		}
 		fmt.Fprintln(hx.Out, line)
 	}
 	hx.Out.Flush()
